@@ -36,7 +36,8 @@ package cert
 //@   ensures @C07 oidAiaOcsp != nil && len(oidAiaOcsp) == 9 && oidv(oidAiaOcsp) == #oidAdOcsp
 //@   ensures @C07 len(extKeyUsages) == 6 && (forall i in [0, 6) :: extKeyUsages[i] != nil && oidv(extKeyUsages[i]) == specEkuOid(i))
 //@   ensures @C07 ocspNoCheck.Critical == false && ocspNoCheckCritical.Critical == true && oidv(ocspNoCheck.Id) == specExtOid(12) && oidv(ocspNoCheckCritical.Id) == specExtOid(12) && len(ocspNoCheck.Value) == 2 && ocspNoCheck.Value[0] == 5 && ocspNoCheck.Value[1] == 0 && len(ocspNoCheckCritical.Value) == 2 && ocspNoCheckCritical.Value[0] == 5 && ocspNoCheckCritical.Value[1] == 0
-//@   ensures @C06,C07 len(oids) == 13 && (forall i in [0, 13) :: oids[i] != nil && oidv(oids[i]) == specExtOid(i))
+// (C08: Merge pairs a profile entry with the certificate extension of the same identifier, so the identifier table serves it too)
+//@   ensures @C06,C07,C08 len(oids) == 13 && (forall i in [0, 13) :: oids[i] != nil && oidv(oids[i]) == specExtOid(i))
 //@   ensures @C06,C07 oidExtensionSubjectKeyId != nil && oidv(oidExtensionSubjectKeyId) == specExtOid(0) && oidExtensionKeyUsage != nil && oidv(oidExtensionKeyUsage) == specExtOid(1) && oidExtensionExtendedKeyUsage != nil && oidv(oidExtensionExtendedKeyUsage) == specExtOid(2) && oidExtensionAuthorityKeyId != nil && oidv(oidExtensionAuthorityKeyId) == specExtOid(3) && oidExtensionBasicConstraints != nil && oidv(oidExtensionBasicConstraints) == specExtOid(4) && oidExtensionSubjectAltName != nil && oidv(oidExtensionSubjectAltName) == specExtOid(5) && oidExtensionCertificatePolicies != nil && oidv(oidExtensionCertificatePolicies) == specExtOid(6) && oidExtensionAuthorityInfoAccess != nil && oidv(oidExtensionAuthorityInfoAccess) == specExtOid(9) && oidExtensionAdmission != nil && oidv(oidExtensionAdmission) == specExtOid(11) && oidExtensionOcspNoCheck != nil && oidv(oidExtensionOcspNoCheck) == specExtOid(12)
 
 // resolveAlg: hash, hash object, signature OID and key type of each of the eight algorithms (RFC 3279/4055/5758)
@@ -68,7 +69,7 @@ package cert
 //@   ensures @C02 err == nil && INNERNIL ==> res.SignatureAlgorithm.Parameters == res.TBSCertificate.SignatureAlgorithm.Parameters
 //@   ensures @C02 err == nil ==> (if specKeyType(alg) == 0 then res.SignatureAlgorithm.Parameters.Class == 0 && res.SignatureAlgorithm.Parameters.Tag == 5 && !res.SignatureAlgorithm.Parameters.IsCompound && len(res.SignatureAlgorithm.Parameters.Bytes) == 0 && len(res.SignatureAlgorithm.Parameters.FullBytes) == 0 else res.SignatureAlgorithm.Parameters.Class == 0 && res.SignatureAlgorithm.Parameters.Tag == 0 && len(res.SignatureAlgorithm.Parameters.Bytes) == 0 && len(res.SignatureAlgorithm.Parameters.FullBytes) == 0)
 //@   ensures @C06,C01 err == nil ==> len(res.TBSCertificate.Extensions) == len(old(c.Extensions)) && (forall k in [0, len(old(c.Extensions))) :: res.TBSCertificate.Extensions[k] == compileRes(old(c.Extensions[k]), c))
-//@   ensures @C19,C03,C04 err == nil ==> res.TBSCertificate.Version == TBS0.Version && res.TBSCertificate.SerialNumber == TBS0.SerialNumber && res.TBSCertificate.Validity == TBS0.Validity && res.TBSCertificate.Subject == TBS0.Subject && res.TBSCertificate.PublicKey == TBS0.PublicKey && res.TBSCertificate.IssuerUniqueId == TBS0.IssuerUniqueId && res.TBSCertificate.SubjectUniqueId == TBS0.SubjectUniqueId
+//@   ensures @C19,C03,C04,C06 err == nil ==> res.TBSCertificate.Version == TBS0.Version && res.TBSCertificate.SerialNumber == TBS0.SerialNumber && res.TBSCertificate.Validity == TBS0.Validity && res.TBSCertificate.Subject == TBS0.Subject && res.TBSCertificate.PublicKey == TBS0.PublicKey && res.TBSCertificate.IssuerUniqueId == TBS0.IssuerUniqueId && res.TBSCertificate.SubjectUniqueId == TBS0.SubjectUniqueId
 //@   ensures @C02 err == nil ==> res.SignatureValue.BitLength == 8 * len(res.SignatureValue.Bytes)
 //@   loop 1
 //@     invariant 0 <= idx && idx <= len(c.Extensions)
@@ -130,6 +131,9 @@ package cert
 //@   uses keys.smt2 ec.smt2
 //@   given CURVES
 //@   given keyTypes != nil && (forall a in [0, 14) expand :: has(keyTypes, a) && keyTypes[a] == (if a <= 3 then 0 else 1))
+// (the table has no other keys: without this, "success implies a known algorithm" does not follow - the clause had been
+// discharged only through the contradictory bePad axiom, see DESIGN 0.6)
+//@   given forall a int :: has(keyTypes, a) ==> 0 <= a && a < 14
 //@   requires ctx != nil && ctx.TbsCertificate != nil
 //@   assigns ctx.PrivateKey; ctx.TbsCertificate.PublicKey
 //@   let GK = typed(unboxRef(ctx.PrivateKey), "*crypto/ecdsa.PrivateKey")
@@ -199,16 +203,16 @@ package cert
 //@ filelet EXTOIDS = oidExtensionSubjectKeyId != nil && oidv(oidExtensionSubjectKeyId) == specExtOid(0) && oidExtensionKeyUsage != nil && oidv(oidExtensionKeyUsage) == specExtOid(1) && oidExtensionExtendedKeyUsage != nil && oidv(oidExtensionExtendedKeyUsage) == specExtOid(2) && oidExtensionAuthorityKeyId != nil && oidv(oidExtensionAuthorityKeyId) == specExtOid(3) && oidExtensionBasicConstraints != nil && oidv(oidExtensionBasicConstraints) == specExtOid(4) && oidExtensionSubjectAltName != nil && oidv(oidExtensionSubjectAltName) == specExtOid(5) && oidExtensionCertificatePolicies != nil && oidv(oidExtensionCertificatePolicies) == specExtOid(6) && oidExtensionAuthorityInfoAccess != nil && oidv(oidExtensionAuthorityInfoAccess) == specExtOid(9) && oidExtensionAdmission != nil && oidv(oidExtensionAdmission) == specExtOid(11) && oidExtensionOcspNoCheck != nil && oidv(oidExtensionOcspNoCheck) == specExtOid(12)
 
 //@ func GetOid returns (oid, ok)
-//@   props C06
+//@   props C06 C08
 //@   uses ext.smt2
 //@   given len(oids) == 13 && (forall i in [0, 13) :: oids[i] != nil && oidv(oids[i]) == specExtOid(i))
-//@   ensures @C06 ok == (0 <= i && i < 13)
-//@   ensures @C06 ok ==> oid != nil && oidv(oid) == specExtOid(i)
+//@   ensures @C06,C08 ok == (0 <= i && i < 13)
+//@   ensures @C06,C08 ok ==> oid != nil && oidv(oid) == specExtOid(i)
 //@ func ExpectOid returns (oid)
-//@   props C06
+//@   props C06 C08
 //@   uses ext.smt2
 //@   requires 0 <= i && i < 13
-//@   ensures @C06 oid != nil && oidv(oid) == specExtOid(i)
+//@   ensures @C06,C08 oid != nil && oidv(oid) == specExtOid(i)
 
 //@ func NewKeyUsage returns (res)
 //@   bounded TestVerifBoundedExtensions
